@@ -1,7 +1,20 @@
-// C07 correspondence harness: replays operation histories on the real smt::sat_core of /repo's current sources
-// (no theory attached) and prints, after every operation, the observable state + the clauses seen by verif_hook.
+// C07 correspondence harness: replays operation histories on the real smt::sat_core of /repo's current sources and prints,
+// after every operation, the observable state + the clauses seen by verif_hook.
 // Line protocol shared with oracle/sat_main.ml (literals are lit.h indexes 2*var+sign):
 //   reset | v | c <lits> | a <lit> | p | o | n | k <lits> | s
+// A scriptable PROBE THEORY (a subclass of smt::theory, attached from the start; it does nothing until told) exercises the
+// public / protected theory API (bind, record, swap_conflict, backtrack_analyze_and_backjump, and analyze_and_backjump
+// through a failing propagate / check):
+//   tc <kind> <lits>   declare a theory clause and bind its variables.  kind 0: propagate(p) fails with the clause as cnfl when
+//                      every literal is false; kind 1: the same, and when all but one literal are false the clause is recorded
+//                      (theory::record, hook kind 2) with the open literal first - at most one lemma per call; kind 2: only
+//                      check() looks at it (fails when every literal is false).  Skipped when every literal is false already.
+//   tx <lits>          declare it (kind 0) and raise it from OUTSIDE propagation: a second theory object takes it as its cnfl,
+//                      the probe swap_conflict()s it over and calls backtrack_analyze_and_backjump() - what executor / solver do
+//                      with a constraint that arrives while the search stands above the levels of its literals.  Only with an
+//                      empty queue and every literal false.
+// The clauses are looked at in declaration order: the probe is deterministic and mirrored by pr_propagate / pr_check of
+// coq/smt/SatCore.v.
 // An operation whose documented precondition (the asserts of sat_core.cpp) does not hold in the current state is
 // not executed and answered with "skip".
 #include <iostream>
@@ -28,11 +41,102 @@ using namespace smt;
 static std::unique_ptr<sat_core> sat;
 static std::string hooks;
 
+struct probe : public theory
+{
+    struct tcl
+    {
+        int kind;
+        std::vector<lit> ls;
+    };
+    std::vector<tcl> cls;
+    probe(sat_core &s) : theory(s) {}
+    bool all_false(const std::vector<lit> &ls) const
+    {
+        for (const auto &l : ls)
+            if (sat->value(l) != False)
+                return false;
+        return true;
+    }
+    static bool has(const std::vector<lit> &ls, const lit &q)
+    {
+        for (const auto &l : ls)
+            if (l == q)
+                return true;
+        return false;
+    }
+    void declare(int kind, const std::vector<lit> &ls)
+    {
+        cls.push_back({kind, ls});
+        for (const auto &l : ls)
+            bind(variable(l));
+    }
+    bool propagate(const lit &p) override
+    {
+        for (const auto &c : cls)
+            if (c.kind < 2 && has(c.ls, !p) && all_false(c.ls))
+            {
+                cnfl = c.ls;
+                return false;
+            }
+        for (const auto &c : cls)
+            if (c.kind == 1 && has(c.ls, !p))
+            {
+                size_t open = 0, n_open = 0;
+                bool rest_false = true;
+                for (size_t i = 0; i < c.ls.size(); ++i)
+                    if (sat->value(c.ls[i]) == Undefined)
+                    {
+                        open = i;
+                        ++n_open;
+                    }
+                    else if (sat->value(c.ls[i]) != False)
+                        rest_false = false;
+                if (n_open == 1 && rest_false)
+                {
+                    std::vector<lit> lemma{c.ls[open]};
+                    for (size_t i = 0; i < c.ls.size(); ++i)
+                        if (!(c.ls[i] == c.ls[open]))
+                            lemma.push_back(c.ls[i]);
+                    record(std::move(lemma));
+                    return true;
+                }
+            }
+        return true;
+    }
+    bool check() override
+    {
+        for (const auto &c : cls)
+            if (all_false(c.ls))
+            {
+                cnfl = c.ls;
+                return false;
+            }
+        return true;
+    }
+    void push() override {}
+    void pop() override {}
+    bool external_conflict(theory &from) { swap_conflict(from); return backtrack_analyze_and_backjump(); }
+};
+struct source : public theory
+{ // the theory in which the conflict "arises" (the probe swaps it over, as solver does with the executor's)
+    source(sat_core &s) : theory(s) {}
+    bool propagate(const lit &) override { return true; }
+    bool check() override { return true; }
+    void push() override {}
+    void pop() override {}
+};
+static std::unique_ptr<probe> th;
+static std::unique_ptr<source> src;
+
 static lit mk(long i) { return lit(static_cast<var>(i >> 1), (i & 1) != 0); }
 
 static void fresh()
 {
+    src.reset(); // ~theory unregisters itself from the sat_core
+    th.reset();
     sat.reset(new sat_core());
+    th.reset(new probe(*sat));
+    src.reset(new source(*sat));
     hooks.clear();
     sat->verif_hook = [](int kind, const std::vector<lit> &ls)
     {
@@ -113,7 +217,41 @@ int main()
             ls.push_back(mk(x));
         const bool qe = sat->prop_q.empty();
         bool r = true;
-        if (cmd == "reset")
+        if (cmd == "tc" || cmd == "tx")
+        {
+            const bool is_tx = cmd == "tx";
+            std::vector<lit> cl;
+            long kind = 0;
+            {
+                std::istringstream is2(line);
+                std::string c2;
+                is2 >> c2;
+                if (!is_tx && !(is2 >> kind))
+                    kind = -1;
+                long y;
+                while (is2 >> y)
+                    cl.push_back(mk(y));
+            }
+            bool ok = !dead && !cl.empty() && in_range(cl) && kind >= 0 && kind <= 2;
+            if (ok)
+                ok = is_tx ? (th->all_false(cl) && qe) : !th->all_false(cl);
+            if (!ok)
+                dump("skip");
+            else if (is_tx)
+            {
+                th->declare(0, cl);
+                src->cnfl = cl;
+                r = th->external_conflict(*src);
+                dump(r ? "1" : "0");
+                dead = !r && sat->root_level();
+            }
+            else
+            {
+                th->declare(static_cast<int>(kind), cl);
+                dump("1");
+            }
+        }
+        else if (cmd == "reset")
         {
             fresh();
             dead = false;
